@@ -328,7 +328,6 @@ func (p *Proxy) handleCONNECT(r responder.Responder, proxyReq *http.Request) err
 	// Create a buffered reader for the client connection. This is required to
 	// use http package functions with this connection.
 	connReader := bufio.NewReader(tlsConn)
-	responder := responder.NewRawHTTPResponder(tlsConn)
 
 	slog.Debug("Entering request loop for CONNECT tunnel", "host", proxyReq.Host)
 	for {
@@ -344,6 +343,9 @@ func (p *Proxy) handleCONNECT(r responder.Responder, proxyReq *http.Request) err
 		}
 
 		req.Close = true
+		// Every exchange gets its own responder, so that no header, length or body of an
+		// earlier response on this tunnel can leak into a later one.
+		responder := responder.NewRawHTTPResponder(tlsConn)
 		if err := p.handleHTTP(responder, req); err != nil {
 			slog.Error("Error processing HTTP request in CONNECT tunnel", "host", proxyReq.Host, "error", err)
 		}
